@@ -21,17 +21,24 @@ LEVEL_NOTE = ("Not modelled: the scan-line construction of the orthogonal visibi
               "cost gap on a generated scene. 'An optimal orthogonal path exists on the Hanan grid' is taken as "
               "the oracle's definition (classical fact, not proved). The estimator theorems are about the model; "
               "its tie to the C++ is sampled (complete over sign classes, which is all bends() depends on). "
-              "Optimality is compared for endpoints visible in all four directions (libavoid's cost model is then "
-              "exactly length + segmentPenalty*bends); direction-restricted endpoints are generated only in the "
-              "separate stream `--mode dirs` (tag scene-dirs), where libavoid is genuinely suboptimal / ignores "
-              "restrictions on some scenes (see report) - that stream is enabled once a C05 known finding is recorded.")
+              "Against the Hanan optimum, optimality is compared for endpoints visible in all four directions "
+              "(libavoid's cost model is then exactly length + segmentPenalty*bends and the optimum is attained). "
+              "With restricted ConnDirFlags the geometric optimum is only an infimum, so those scenes are judged "
+              "against the optimum of libavoid's OWN orthogonal visibility graph (dumped from the router after "
+              "routing, certificate checked by Check.OrthGraph with vg_cert_sound): this validates the A* search "
+              "incl. turn pruning but not the graph construction. Source-only restricted scenes (scene-dirs-src) "
+              "are strict; target-restricted scenes (scene-dirs-dst / legacy tag scene-dirs) are a known finding "
+              "(turn pruning assumes a line through the target).")
 TECHNIQUE = ("Lean 4 theorems (finite sign/direction case split + linear arithmetic; potential argument) + "
              "certificate checking (Hanan-grid potential, exact Rat) + correspondence harness calling the real "
              "bends()/estimatedCostSpecific()/Router")
 RULE = ("case 0: exhaustive bends() over offsets {-2..2}^2 minus origin x 4 x 4 directions + direction helpers; "
         "then random dyadic bends()/estimatedCostSpecific() chunks; then scenes of 1-10 (quick) / 1-30 (thorough) "
         "separated rectangles (random, aligned lattice, brick, walls, tiny), buffer 0 or 0.5, penalty 10/50/200, "
-        "free-space endpoints; a scene is non-trivial if the routed path has at least one bend; a kernel chunk if "
+        "free-space endpoints ConnDirAll; then direction-restricted scenes judged on libavoid's own visibility graph: "
+        "scene-dirs-src (source restricted, target all; 1/3 of them the leave-away shape: single-direction source "
+        "whose only turning line comes from a rectangle on the far side) and scene-dirs-dst (target restricted); "
+        "a scene is non-trivial if the routed path has at least one bend; a kernel chunk if "
         "it made at least one call")
 TRUSTED_BASE = ["Lean 4.33 kernel", "axioms: propext, Classical.choice, Quot.sound",
                 "cpp2lean translator + clang AST (bends() and direction helpers regenerated each run, bridge lemmas to the model; cross-checked by the correspondence)",
@@ -41,7 +48,7 @@ TRUSTED_BASE = ["Lean 4.33 kernel", "axioms: propext, Classical.choice, Quot.sou
                 "IEEE exactness of +,- on the generated half-integers (route coordinates are exact)"]
 ASSUMPTIONS = ["all routing penalties other than segmentPenalty are 0; one connector per scene; no clusters/pins/checkpoints",
                "rectangles pairwise separated by >= 2 (>= 1 after buffering); endpoints >= 1 away from every routing box",
-               "optimality compared only for ConnDirAll endpoints unless the dirs stream is enabled"]
+               "Hanan-optimality compared only for ConnDirAll endpoints; restricted endpoints: optimality within the dumped visibility graph"]
 EXPLANATION = ("bends() depends on its points only through the signs of dx, dy; Lean proves that its 9x16 table "
                "equals the exact minimum number of bends over all orthogonal approach paths (first/last leg may "
                "have length 0, inner legs > 0), hence manhattan + penalty*bends never exceeds the true remaining "
@@ -49,14 +56,19 @@ EXPLANATION = ("bends() depends on its points only through the signs of dx, dy; 
                "feasible potential (lower bound) and a witness path (upper bound) verified in Lean.")
 
 
-def _dirs_enabled():
+def _dst_mode():
+    """Target-restricted scenes are a known finding (turn pruning). They are emitted under the tag the
+    lead's known_findings.json currently matches: `scene-dirs-dst` (--mode dirs2) if such an entry exists,
+    else the legacy tag `scene-dirs` (--mode dirs) if that one exists, else not at all."""
     f = Path(__file__).resolve().parent.parent.parent / "known_findings.json"
     try:
-        return any(e.get("property") == "C05" and e.get("status") == "known" and
-                   e.get("match", {}).get("tag") == "scene-dirs"
-                   for e in json.loads(f.read_text()).get("findings", []))
+        tags = {e.get("match", {}).get("tag") for e in json.loads(f.read_text()).get("findings", [])
+                if e.get("property") == "C05" and e.get("status") == "known"}
     except Exception:
-        return False
+        return None
+    if "scene-dirs-dst" in tags: return "dirs2"
+    if "scene-dirs" in tags: return "dirs"
+    return None
 
 
 def regenerate(ROOT, REPO):
@@ -71,8 +83,9 @@ def plan(tier, seed, searching):
     # search mode (broken proof/tie): 8x the scenes in the quick tier, 4x in the thorough tier (~7 min)
     scale = ("8" if tier == "quick" else "4") if searching else "1"
     h = ["--seed", str(seed), "--tier", tier, "--scale", scale]
-    if _dirs_enabled():
-        h += ["--mode", "dirs"]
+    m = _dst_mode()
+    if m:
+        h += ["--mode", m]
     return [dict(hargs=h)]
 
 
